@@ -91,6 +91,8 @@ def mc(ck, module: str, cfg: str | None = None, workers: int | None = None, time
         a = actions.setdefault(name, [0, 0])
         a[0] = max(a[0], int(d))
         a[1] = max(a[1], int(g))
+    if not st and expect_error and re.search(r"Error: .* is violated by the initial state", out):
+        st = [("0", "0")]          # a counterexample among the initial states: TLC prints no statistics
     if not st:
         raise MachineryError(f"TLC produced no statistics for {module}:\n{out[-3000:]}")
     res = MCResult(module, cfgp.name, ok, int(st[-1][0]), int(st[-1][1]), int(dp[-1]) if dp else 0, wall, actions, out)
